@@ -99,7 +99,7 @@ func (r *c15Ref) selectSet(names []string, policy int) (map[string]bool, bool) {
 
 func c15Build(prof [3]int, edges [3]int) (*Project, *c15Ref) {
 	names := []string{"a", "b", "c"}
-	profSets := [][]string{nil, {"p"}, {"q"}}
+	profSets := [][]string{nil, {"p"}, {"q"}, {"p", "q"}}
 	p := &Project{Name: "n", Services: Services{}, DisabledServices: Services{},
 		Networks: Networks{"n1": {Name: "n1"}, "n2": {Name: "n2"}, "unused": {Name: "u"}},
 		Volumes:  Volumes{"v1": {Name: "v1"}, "unusedv": {Name: "uv"}}}
@@ -160,14 +160,30 @@ func VerifC15Selection() {
 	for i := range prof {
 		prof[i] = vrtChoice("profile", vrtParam("PROFS", 3))
 	}
-	edges[0] = vrtChoice("edge-ab", 3)
-	edges[1] = vrtChoice("edge-ac", 3)
-	edges[2] = vrtChoice("edge-bc", 3)
+	if vrtParam("NOEDGES", 0) == 0 {
+		edges[0] = vrtChoice("edge-ab", 3)
+		edges[1] = vrtChoice("edge-ac", 3)
+		edges[2] = vrtChoice("edge-bc", 3)
+	}
 	p, r := c15Build(prof, edges)
 	steps := 1 + vrtChoice("steps", vrtParam("OPS", 2))
+	if vrtParam("SEQ", 0) != 0 {
+		steps = vrtParam("OPS", 2)
+	}
 	for st := 0; st < steps; st++ {
 		op := 0
-		if st > 0 || vrtParam("FIRSTPROFILES", 0) == 0 {
+		switch {
+		case vrtParam("SEQ", 0) == 1:
+			// fixed pattern: select profiles, disable a service, enable a service
+			op = []int{0, 2, 1}[st%3]
+		case vrtParam("SEQ", 0) == 2:
+			// fixed pattern: disable or select, then select profiles
+			if st == 0 {
+				op = []int{2, 3}[vrtChoice("firstop", 2)]
+			} else {
+				op = 0
+			}
+		case st > 0 || vrtParam("FIRSTPROFILES", 0) == 0:
 			op = vrtChoice("op", 5)
 		}
 		apply := func() (*Project, error) { return nil, nil }
@@ -178,13 +194,15 @@ func VerifC15Selection() {
 			apply = func() (*Project, error) { return p.WithProfiles(ps) }
 			r.withProfiles(ps)
 		case 1:
-			n := []string{"a", "b", "c"}[vrtChoice("name", 3)]
-			apply = func() (*Project, error) { return p.WithServicesEnabled(n) }
-			if !r.enabled[n] {
-				r.withProfiles(append(append([]string{}, r.active...), r.profiles[n]...))
-			} else {
-				r.withProfiles(append([]string{}, r.active...))
+			names := [][]string{{"a"}, {"b"}, {"c"}, {"a", "b"}, {"b", "a"}}[vrtChoice("names", 5)]
+			apply = func() (*Project, error) { return p.WithServicesEnabled(names...) }
+			act := append([]string{}, r.active...)
+			for _, n := range names {
+				if !r.enabled[n] {
+					act = append(act, r.profiles[n]...)
+				}
 			}
+			r.withProfiles(act)
 		case 2:
 			n := []string{"a", "b", "c", "zz"}[vrtChoice("name", 4)]
 			apply = func() (*Project, error) { return p.WithServicesDisabled(n), nil }
